@@ -149,6 +149,25 @@ theorem polAngle_fixed (n : ℕ) (val sx sy cx cy cx2 cy2 : ℝ)
         - (bearingDistance sy sx cy2 cx2).1 + (bearingDistance sy sx cy cx).1 = 2 * Real.pi := by ring
     rw [this, wrap_hi _ _ (by linarith) (by linarith)]; simp
 
+/-- zenith angle = the value the visitor recomputes (acos(-dz/s), 2π − acos for a second-face reading) -/
+theorem polZAngle_fixed (n : ℕ) (val dx dy dz : ℝ)
+    (h : val = if Real.pi < val
+               then 2 * Real.pi - Real.arccos (-dz / Real.sqrt (dx * dx + dy * dy + dz * dz))
+               else Real.arccos (-dz / Real.sqrt (dx * dx + dy * dy + dz * dz))) :
+    polZAngle (n + 1) val 0 dx dy dz = 0 := by
+  have hp := Real.pi_pos
+  unfold polZAngle
+  simp only [cc2r_zero, add_eq, sub_eq, mul_eq, div_eq, neg_eq, add_zero, sqrt_eq, acos_eq, pi_eq, lt_eq,
+    twoPi_eq, zero_eq]
+  split_ifs with h0 h1
+  · rfl
+  · rw [if_pos h1] at h
+    have : val - (2 * Real.pi - Real.arccos (-dz / Real.sqrt (dx * dx + dy * dy + dz * dz))) = 0 := by linarith
+    rw [this, wrap_mid _ _ (by linarith) (by linarith)]; simp
+  · rw [if_neg h1] at h
+    have : val - Real.arccos (-dz / Real.sqrt (dx * dx + dy * dy + dz * dz)) = 0 := by linarith
+    rw [this, wrap_mid _ _ (by linarith) (by linarith)]; simp
+
 theorem testLin_zeros (k : ℕ) : testLin (List.replicate k (0 : ℝ)) = false := by
   unfold testLin
   have : (List.replicate k (0 : ℝ)).foldl (fun acc p => if acc < Scalar.abs p then Scalar.abs p else acc) (0 : ℝ) = 0 := by
